@@ -29,7 +29,10 @@ def _parse_args(repo):
 
 def _registrations(f):
     regs = []
-    for c in add_argument_calls(f.node):
+    calls = list(add_argument_calls(f.node))
+    for h in f.new_helpers():  # registrations moved into helpers extracted from parse_args
+        calls += list(add_argument_calls(h.node))
+    for c in calls:
         flags = tuple(a.value for a in c.args if isinstance(a, ast.Constant) and isinstance(a.value, str))
         kw = {k.arg: k.value for k in c.keywords}
         regs.append((flags, kw, c))
